@@ -160,6 +160,8 @@ func counterDelta(s ast.Stmt, target string) (int64, bool) {
 }
 
 // sumDeltas adds the counter movements among the direct statements of a block (not descending into nested blocks).
+// A block without any recognised movement yields 0: the model then does not move the counter either, the theorems
+// about the books stop checking and the correspondence run shows the drift on a concrete history.
 func sumDeltas(l []ast.Stmt, target string) (sum int64, n int) {
 	for _, s := range l {
 		if d, ok := counterDelta(s, target); ok {
@@ -168,6 +170,31 @@ func sumDeltas(l []ast.Stmt, target string) (sum int64, n int) {
 		}
 	}
 	return
+}
+
+// appendsTo reports whether one of the DIRECT statements of the block is `target = append(target, …)`.
+func appendsTo(l []ast.Stmt, target string) bool {
+	for _, s := range l {
+		if a, ok := s.(*ast.AssignStmt); ok && len(a.Lhs) == 1 && len(a.Rhs) == 1 && types.ExprString(a.Lhs[0]) == target {
+			if c, ok := a.Rhs[0].(*ast.CallExpr); ok && types.ExprString(c.Fun) == "append" {
+				return true
+			}
+		}
+	}
+	return false
+}
+
+// putBackDef: `if <cond> { idle = append(idle, client) }` ⇒ cond; an unconditional append ⇒ true.
+func putBackDef(name, doc string, body *ast.BlockStmt, target string) (string, error) {
+	for _, i := range ifs(body) {
+		if appendsTo(i.Body.List, target) && i.Else == nil {
+			return condDef(name, "(closed : Bool)", doc, boolEnv(map[string]string{"client.closed": "closed"}), i.Cond)
+		}
+	}
+	if appendsTo(body.List, target) {
+		return fmt.Sprintf("/-- %s (unconditional) -/\ndef %s (closed : Bool) : Bool :=\n  true\n", doc, name), nil
+	}
+	return "", fmt.Errorf("%s: append to %s not found", name, target)
 }
 
 func boolEnv(names map[string]string) *Env {
@@ -234,6 +261,70 @@ func genPool() (string, error) {
 		}
 		fmt.Fprintf(&sb, "def %s : Nat := %d\n", n, v)
 	}
+	// --- BaseStream.ResetStream / DestroyStream guards
+	sf, err := parse("pkg/stream/stream.go")
+	if err != nil {
+		return "", err
+	}
+	rsFn := findFunc(sf, "BaseStream", "ResetStream")
+	dsFn := findFunc(sf, "BaseStream", "DestroyStream")
+	if rsFn == nil || dsFn == nil {
+		return "", fmt.Errorf("BaseStream.ResetStream/DestroyStream not found")
+	}
+	stEnv := func() *Env {
+		return boolEnv(map[string]string{"s.state": "state", "streamStateReset": "streamStateReset",
+			"streamStateDestroying": "streamStateDestroying", "streamStateDestroyed": "streamStateDestroyed"})
+	}
+	// ResetStream: `if <cond> { return }` as first statement ⇒ proceeds = !cond; no such guard ⇒ always proceeds
+	resetGuard := "true"
+	if len(rsFn.Body.List) > 0 {
+		if i, ok := rsFn.Body.List[0].(*ast.IfStmt); ok && len(i.Body.List) == 1 {
+			if _, isRet := i.Body.List[0].(*ast.ReturnStmt); isRet {
+				c, err := stEnv().expr(deatom(i.Cond))
+				if err != nil {
+					return "", fmt.Errorf("ResetStream guard: %v", err)
+				}
+				resetGuard = "!" + c
+			}
+		}
+	}
+	fmt.Fprintf(&sb, "/-- BaseStream.ResetStream goes on (notifies the listeners, then destroys) -/\ndef resetProceeds (state : Nat) : Bool :=\n  %s\n", resetGuard)
+	// DestroyStream: `if !atomic.CompareAndSwapUint32(&s.state, OLD, NEW) { return }` ⇒ proceeds = (state = OLD)
+	destroyGuard := "true"
+	if len(dsFn.Body.List) > 0 {
+		if i, ok := dsFn.Body.List[0].(*ast.IfStmt); ok && len(i.Body.List) == 1 {
+			if _, isRet := i.Body.List[0].(*ast.ReturnStmt); isRet {
+				u, ok := i.Cond.(*ast.UnaryExpr)
+				if !ok || u.Op != token.NOT {
+					return "", fmt.Errorf("DestroyStream guard: not a negated CAS")
+				}
+				call, ok := u.X.(*ast.CallExpr)
+				if !ok || types.ExprString(call.Fun) != "atomic.CompareAndSwapUint32" || len(call.Args) != 3 || types.ExprString(call.Args[0]) != "&s.state" {
+					return "", fmt.Errorf("DestroyStream guard: not a CAS on s.state")
+				}
+				old, err := stEnv().expr(call.Args[1])
+				if err != nil {
+					return "", fmt.Errorf("DestroyStream guard: %v", err)
+				}
+				destroyGuard = "(decide (state = " + old + "))"
+			}
+		}
+	}
+	fmt.Fprintf(&sb, "/-- BaseStream.DestroyStream wins the CAS (tells the listeners) -/\ndef destroyProceeds (state : Nat) : Bool :=\n  %s\n", destroyGuard)
+	// the state a destroyed stream is left in: the last atomic.StoreUint32(&s.state, X) of DestroyStream
+	finalState := ""
+	ast.Inspect(dsFn.Body, func(n ast.Node) bool {
+		if c, ok := n.(*ast.CallExpr); ok && types.ExprString(c.Fun) == "atomic.StoreUint32" && len(c.Args) == 2 && types.ExprString(c.Args[0]) == "&s.state" {
+			if v, err := stEnv().expr(c.Args[1]); err == nil {
+				finalState = v
+			}
+		}
+		return true
+	})
+	if finalState == "" {
+		return "", fmt.Errorf("DestroyStream: final state store not found")
+	}
+	fmt.Fprintf(&sb, "/-- state BaseStream.DestroyStream leaves behind -/\ndef destroyedState : Nat := %s\n", finalState)
 	// --- reset reasons
 	reasons := map[string]string{}
 	for _, n := range []string{"StreamLocalReset", "StreamRemoteReset", "StreamConnectionTermination", "StreamConnectionFailed", "UpstreamReset"} {
@@ -320,7 +411,7 @@ func genPool() (string, error) {
 	}
 	const h1tot = "p.totalClientCount"
 	d, n := sumDeltas(top.Body.List, h1tot)
-	if n != 1 {
+	if n > 1 {
 		return "", fmt.Errorf("getAvailableClient: pre-increment not recognised")
 	}
 	fmt.Fprintf(&sb, "def h1NewDelta : Int := %d\n", d)
@@ -351,7 +442,7 @@ func genPool() (string, error) {
 		return "", fmt.Errorf("getAvailableClient: connect-failure branch not found")
 	}
 	d, n = sumDeltas(failIf.Body.List, h1tot)
-	if n != 1 {
+	if n > 1 {
 		return "", fmt.Errorf("getAvailableClient: connect-failure decrement not recognised")
 	}
 	fmt.Fprintf(&sb, "def h1ConnFailDelta : Int := %d\n", d)
@@ -360,7 +451,7 @@ func genPool() (string, error) {
 		return "", fmt.Errorf("getAvailableClient: overflow branch not found")
 	}
 	d, n = sumDeltas(eb.List, h1tot)
-	if n != 1 {
+	if n > 1 {
 		return "", fmt.Errorf("getAvailableClient: overflow decrement not recognised")
 	}
 	fmt.Fprintf(&sb, "def h1OverflowDelta : Int := %d\n", d)
@@ -379,16 +470,12 @@ func genPool() (string, error) {
 		return "", fmt.Errorf("onConnectionEvent: close branch not found")
 	}
 	d, n = sumDeltas(closeIf.Body.List, h1tot)
-	if n != 1 {
+	if n > 1 {
 		return "", fmt.Errorf("onConnectionEvent: decrement not recognised")
 	}
 	fmt.Fprintf(&sb, "def h1CloseDelta : Int := %d\n", d)
 	// onStreamDestroy: put back unless closed
-	put := findIf(osd.Body, "client.closed")
-	if put == nil {
-		return "", fmt.Errorf("onStreamDestroy: put-back test not found")
-	}
-	s, err = condDef("h1PutBack", "(closed : Bool)", "onStreamDestroy: the client is appended to availableClients", boolEnv(map[string]string{"client.closed": "closed"}), put.Cond)
+	s, err = putBackDef("h1PutBack", "onStreamDestroy: the client is appended to availableClients", osd.Body, "p.availableClients")
 	if err != nil {
 		return "", err
 	}
@@ -499,7 +586,7 @@ func genPool() (string, error) {
 		return "", fmt.Errorf("GetActiveClient: success branch not found")
 	}
 	d, n = sumDeltas(okIf.Body.List, pptot)
-	if n != 1 {
+	if n > 1 {
 		return "", fmt.Errorf("GetActiveClient: increment on success not recognised")
 	}
 	fmt.Fprintf(&sb, "def ppNewDelta : Int := %d\n", d)
@@ -513,15 +600,11 @@ func genPool() (string, error) {
 	}
 	sb.WriteString(s)
 	d, n = sumDeltas(rfp.Body.List, pptot)
-	if n != 1 {
+	if n > 1 {
 		return "", fmt.Errorf("removeFromPool: decrement not recognised")
 	}
 	fmt.Fprintf(&sb, "def ppCloseDelta : Int := %d\n", d)
-	pput := findIf(put2.Body, "client.closed")
-	if pput == nil {
-		return "", fmt.Errorf("putClientToPoolLocked: test not found")
-	}
-	s, err = condDef("ppPutBack", "(closed : Bool)", "putClientToPoolLocked: the client is appended to idleClients", boolEnv(map[string]string{"client.closed": "closed"}), pput.Cond)
+	s, err = putBackDef("ppPutBack", "putClientToPoolLocked: the client is appended to idleClients", put2.Body, "p.idleClients")
 	if err != nil {
 		return "", err
 	}
